@@ -1697,7 +1697,7 @@ func simplifySPEgress(p *Plan) []*Plan {
 func init() {
 	register(&Profile{
 		ID: "C12", Name: "sp-egress", Level: "exploration",
-		Rule: "each run: one SP configuration (RSA/ECDSA key, unsigned or rsa-sha1/rsa-sha256/ecdsa-sha256, IdP SSO and SLO endpoint URLs without/with a query string, 5 name-ID-format settings, ForceAuthn unset/true/false, RequestedAuthnContext set/unset, entity ID unset/URL/URL-with-query/URN-with-XML-metacharacters) and 1-4 message creations drawn from 15 kinds (AuthnRequest via MakeRedirect/MakePost/MakeAuthenticationRequest+Redirect/Post and via samlsp.Middleware.RequireAccount; LogoutRequest and LogoutResponse via the Make* and Make*+Redirect/Post builders; ArtifactResolve) with relay state / name ID / request ID drawn from plain, single metacharacter (& = # + % %41 %zz ; ? / space quotes <> TAB LF CR CRLF non-ASCII ...), composite injection strings, 79/80/81/500-byte, and random strings; every wire form is taken through a browser stub to the real library IdP (authn) or a stub SLO consumer (logout); the whole creation sequence is re-executed on a different random stream and one creation on streams differing in a single byte. non-trivial = some string is not [A-Za-z0-9_-]{0,80} or an endpoint carries a query string; distinct = distinct abstract event log (configuration, kinds, strings, outcome per stage)",
+		Rule: "each run: one SP configuration (RSA/ECDSA key, unsigned or rsa-sha1/rsa-sha256/ecdsa-sha256, IdP SSO and SLO endpoint URLs without/with a query string, 5 name-ID-format settings, ForceAuthn unset/true/false, RequestedAuthnContext set/unset, entity ID unset/URL/URL-with-query/URN-with-XML-metacharacters) and 1-4 message creations drawn from 15 kinds (AuthnRequest via MakeRedirect/MakePost/MakeAuthenticationRequest+Redirect/Post and via samlsp.Middleware.RequireAccount; LogoutRequest and LogoutResponse via the Make* and Make*+Redirect/Post builders; ArtifactResolve) with relay state / name ID / request ID drawn from plain, single metacharacter (& = # + % %41 %zz ; ? / space quotes <> TAB LF CR CRLF non-ASCII ...), composite injection strings, 79/80/81/500-byte, and random strings; every wire form is taken through a browser stub to the real library IdP (authn) or a stub SLO consumer (logout); the whole creation sequence is re-executed on a different random stream and one creation on streams differing in a single byte. non-trivial = some string is not [A-Za-z0-9_-]{0,80} or an endpoint carries a query string; distinct = distinct abstract event log (configuration, kinds, strings, outcome per stage); 40% of middleware starts are followed by a reload of the same URL that presents the first start's tracking cookies (every start must carry its own fresh ID)",
 		Gen:  genSPEgress, Exec: execSPEgress, Simplify: simplifySPEgress,
 		RunsQuick: 4000, RunsThorough: 400000,
 		Assumptions: []string{
